@@ -191,14 +191,23 @@ def run(ctx):
                     r3.violate("C05|R3|%s|pair-%d" % (n, k), "%s sets status_code from %s at line %d but the reason_phrase that follows comes from %s" % (n, entry, line, nxt[1] if nxt else "nowhere"),
                                fn.file, line, n)
 
-    # ---- R4 HEAD/OPTIONS carry no body ; R5 Content-Length ; R6 header block shape  (serialisers)
+    serialiser_clauses(ctx, chk, "C05", seen)
+    chk.assumptions += ["header values other than those parsed from the request are constants, configuration or numbers (no CR/LF); request header lines are read with read_until('\\n'), so CR/LF can only sit at the end of a line",
+                        "reason phrases are compared with the IANA registry modulo case, hyphens and spaces"]
+    chk.undecided = ["validation of actual wire bytes by an independent HTTP parser; duplicate *default* headers are C10's clause"]
+    return chk.finish()
+
+
+def serialiser_clauses(ctx, chk, prop, seen):
+    """R4 HEAD/OPTIONS carry no body ; R5 Content-Length ; R6 header block shape (shared with C09)"""
+    F, G, R = ctx.F, ctx.G, ctx.R
     r4 = chk.rule("R4-head-options-bodiless", "in the server's serialiser the body reaches the returned bytes only where both `method == HEAD` and `method == OPTIONS` are false", floor=1)
     r5 = chk.rule("R5-content-length-is-body-length", "Content-Length is to_string(len(cr.body)) and Content-Type is cr.content_type of the single content range whose body is emitted", floor=4)
     r6 = chk.rule("R6-header-block-shape", "per header the serialiser appends name, the ': ' separator constant, value, CRLF; framing headers are built in mutually exclusive branches", floor=2)
     serialisers = [n for n, fn in F.fns.items() if fn.crate == "rws" and fn.kind != "Promoted" and fn.ret == "std::vec::Vec<u8>"
                    and any(callee_name(t) == "response::Response::generate_body" for _, t in fn.calls())]
     if len(serialisers) < 2:
-        r5.violate("C05|R5|anchor-missing|serialisers", "expected the two response serialisers (callers of Response::generate_body returning Vec<u8>), found %r" % serialisers)
+        r5.violate(prop + "|R5|anchor-missing|serialisers", "expected the two response serialisers (callers of Response::generate_body returning Vec<u8>), found %r" % serialisers)
     for n in sorted(serialisers):
         fn = F.fns[n]
         du = du_of(fn)
@@ -212,7 +221,7 @@ def run(ctx):
         for hname, want in (("Content-Length", "body"), ("Content-Type", "content_type")):
             lst = by_name.get(hname, [])
             if not lst:
-                r5.violate("C05|R5|%s|%s|missing" % (n, hname), "%s never builds a %s header" % (n, hname), fn.file, fn.span["line"], n)
+                r5.violate((prop + "|R5|%s|%s|missing") % (n, hname), "%s never builds a %s header" % (n, hname), fn.file, fn.span["line"], n)
             for bid, s, vv in lst:
                 src = _field_source(du, vv)
                 if hname == "Content-Type" and const_str(vv) is None and src is None:
@@ -220,12 +229,12 @@ def run(ctx):
                     src_ok = _all_const_join(du, vv)
                     r5.instance({"fn": n, "header": hname, "value": "multipart constant join" if src_ok else str(vv)[:60], "line": s["span"]["line"]}, src_ok)
                     if not src_ok:
-                        r5.violate("C05|R5|%s|%s|source" % (n, hname), "%s: %s value does not come from the content range (%s)" % (n, hname, str(vv)[:80]), s["span"]["file"], s["span"]["line"], n)
+                        r5.violate((prop + "|R5|%s|%s|source") % (n, hname), "%s: %s value does not come from the content range (%s)" % (n, hname, str(vv)[:80]), s["span"]["file"], s["span"]["line"], n)
                     continue
                 ok = src is not None and src[1] == want and src[0] in ("content_range_list",) and (hname != "Content-Length" or src[2] == "len")
                 r5.instance({"fn": n, "header": hname, "value_from": src, "line": s["span"]["line"]}, ok)
                 if not ok:
-                    r5.violate("C05|R5|%s|%s|source" % (n, hname), "%s: the %s header is computed from %s, not from %s of the emitted content range" % (n, hname, src, "len(body)" if want == "body" else want),
+                    r5.violate((prop + "|R5|%s|%s|source") % (n, hname), "%s: the %s header is computed from %s, not from %s of the emitted content range" % (n, hname, src, "len(body)" if want == "body" else want),
                                s["span"]["file"], s["span"]["line"], n)
         # exclusivity of framing headers
         for hname, lst in by_name.items():
@@ -234,7 +243,7 @@ def run(ctx):
                 ok = all(c is not None for c in conds) and _disjoint(conds)
                 r6.instance({"fn": n, "header": hname, "built_under": conds}, ok)
                 if not ok:
-                    r6.violate("C05|R6|%s|%s|twice" % (n, hname), "%s can build %s twice on one path (branches %s are not mutually exclusive)" % (n, hname, conds), fn.file, fn.span["line"], n)
+                    r6.violate((prop + "|R6|%s|%s|twice") % (n, hname), "%s can build %s twice on one path (branches %s are not mutually exclusive)" % (n, hname, conds), fn.file, fn.span["line"], n)
         # R6 shape of the header loop
         seq = []
         for bid in cfg.rpo():
@@ -251,7 +260,7 @@ def run(ctx):
                 found = True
         r6.instance({"fn": n, "header_line_pattern": "name, ': ', value, CRLF", "found": found}, found)
         if not found:
-            r6.violate("C05|R6|%s|line-shape" % n, "%s does not append header lines as name, ': ', value, CRLF (pushes seen: %s)" % (n, [x[1] for x in seq][:12]), fn.file, fn.span["line"], n)
+            r6.violate((prop + "|R6|%s|line-shape") % n, "%s does not append header lines as name, ': ', value, CRLF (pushes seen: %s)" % (n, [x[1] for x in seq][:12]), fn.file, fn.span["line"], n)
         # R4 only for the serialiser the server uses
         if in_server:
             body_locals = [t["dest"]["l"] for _, t in fn.calls() if callee_name(t) == "response::Response::generate_body"]
@@ -283,16 +292,12 @@ def run(ctx):
                         if a.get("k") in ("copy", "move") and a["l"] in body_locals:
                             uses.append((bid, t["span"]["line"]))
             if not body_locals or not uses:
-                r4.violate("C05|R4|%s|anchor-missing" % n, "%s: the body produced by generate_body is never used (anchor missing)" % n, fn.file, fn.span["line"], n)
+                r4.violate((prop + "|R4|%s|anchor-missing") % n, "%s: the body produced by generate_body is never used (anchor missing)" % n, fn.file, fn.span["line"], n)
             for bid, line in uses:
                 ok = all(m in method_tests and cfg.edges_dominate(method_tests[m], bid) for m in ("HEAD", "OPTIONS"))
                 r4.instance({"fn": n, "body_used_at_line": line, "dominated_by_not_HEAD_and_not_OPTIONS": ok}, ok)
                 if not ok:
-                    r4.violate("C05|R4|%s|body-use" % n, "%s: the body is appended to the response at line %d on a path where the method may be HEAD or OPTIONS" % (n, line), fn.file, line, n)
-    chk.assumptions += ["header values other than those parsed from the request are constants, configuration or numbers (no CR/LF); request header lines are read with read_until('\\n'), so CR/LF can only sit at the end of a line",
-                        "reason phrases are compared with the IANA registry modulo case, hyphens and spaces"]
-    chk.undecided = ["validation of actual wire bytes by an independent HTTP parser; duplicate *default* headers are C10's clause"]
-    return chk.finish()
+                    r4.violate((prop + "|R4|%s|body-use") % n, "%s: the body is appended to the response at line %d on a path where the method may be HEAD or OPTIONS" % (n, line), fn.file, line, n)
 
 
 def _base_ty(fn, place):
